@@ -164,7 +164,7 @@ fn absorb(rep: &mut Report, out: &[u8], what: &str, extra_tags: &[String]) {
 pub fn run(tier: Tier, _replay: Option<Value>) -> ! {
     let mut rep = Report::new("C01", tier, "exploration");
     // ---- (a) all strings through the parser entry points
-    let max_len = tier.pick(3, 4);
+    let max_len = tier.pick(4, 5);
     let cfg = PoolCfg::new("c01").timeout_ms(120_000);
     let r = shards::run_sharded(&cfg, SIGMA1, max_len, 2, &json!({"mode": "parse"}));
     for (_, out) in &r.ok {
@@ -181,16 +181,21 @@ pub fn run(tier: Tier, _replay: Option<Value>) -> ! {
         Tier::Quick => {
             let mut v: Vec<CorpusCase> = corpus::substitutions(tier).into_iter().filter(|c| c.tags.iter().filter(|t| t.starts_with("slot:")).count() <= 1).collect();
             v.extend(corpus::mutations(tier).into_iter().filter(|c| !c.tags.iter().any(|t| t.starts_with("mut:rep@"))));
-            v.extend(corpus::nestings());
+            v.extend(corpus::nestings(8));
             v
         }
     };
     rep.set("corpus_cases", corpus_all.len() as u64);
     for (mode, what, chunk) in [("parse", "corpus-parse", 100usize), ("editor", "editor", 25usize)] {
-        let lines: Vec<&CorpusCase> = corpus_all.iter().filter(|c| mode == "parse" || c.text.len() <= 300).collect();
-        // the editor pass takes every cursor position: keep it to defaults/substitutions/nestings at the quick tier
-        let lines: Vec<&CorpusCase> = if mode == "editor" && tier == Tier::Quick { lines.into_iter().filter(|c| !c.tags.iter().any(|t| t.starts_with("mut:"))).collect() } else { lines };
-        let cfg = PoolCfg::new("c01").timeout_ms(if mode == "parse" { 30_000 } else { 60_000 });
+        let lines: Vec<&CorpusCase> = corpus_all.iter().filter(|c| if mode == "parse" { c.text.len() <= 5000 } else { c.text.len() <= 200 }).collect();
+        // the editor pass takes every cursor position (a completion each): at the quick tier it covers the
+        // default templates, the nestings and three boundary values per slot
+        let lines: Vec<&CorpusCase> = if mode == "editor" && tier == Tier::Quick {
+            lines.into_iter().filter(|c| !c.tags.iter().any(|t| t.starts_with("mut:")) && c.tags.iter().all(|t| !t.starts_with("val:") || matches!(t.as_str(), "val:empty" | "val:e-acute" | "val:2^63"))).collect()
+        } else {
+            lines
+        };
+        let cfg = PoolCfg::new("c01").timeout_ms(10_000).no_confirm();
         let cases: Vec<Vec<u8>> = lines.chunks(chunk).map(|c| json!({"mode": mode, "lines": c.iter().map(|x| x.text.clone()).collect::<Vec<_>>()}).to_string().into_bytes()).collect();
         let outs = pool::run(&cfg, &cases);
         eprintln!("  [C01] phase {what} ({} lines) done at {:.1}s", lines.len(), rep.started.elapsed().as_secs_f64());
@@ -200,7 +205,7 @@ pub fn run(tier: Tier, _replay: Option<Value>) -> ! {
                 _ => {
                     // isolate the offending line
                     let group: Vec<&&CorpusCase> = lines.chunks(chunk).nth(ci).unwrap().iter().collect();
-                    let cfg1 = PoolCfg::new("c01").timeout_ms(10_000);
+                    let cfg1 = PoolCfg::new("c01").timeout_ms(3_000);
                     let singles: Vec<Vec<u8>> = group.iter().map(|c| json!({"mode": mode, "lines": [c.text]}).to_string().into_bytes()).collect();
                     let o1 = pool::run(&cfg1, &singles);
                     for (c, o) in group.iter().zip(o1) {
@@ -221,11 +226,11 @@ pub fn run(tier: Tier, _replay: Option<Value>) -> ! {
     // bash first: work that bash itself does not finish within the cap is not "bounded work"
     let exec_cases: Vec<&CorpusCase> = corpus_all.iter().filter(|c| c.text.len() <= 150_000).collect();
     let scripts: Vec<String> = exec_cases.iter().map(|c| c.text.clone()).collect();
-    let bspecs: Vec<procs::ProcSpec> = scripts.iter().map(|s| bash::spec_file(bash::BASH, s, 3_000)).collect();
+    let bspecs: Vec<procs::ProcSpec> = scripts.iter().map(|s| { let mut sp = bash::spec_file(bash::BASH, s, 2_000); sp.no_confirm = true; sp }).collect();
     let bashr = procs::run_many(&bspecs, bash::procs_par());
     eprintln!("  [C01] bash pre-pass ({} scripts) done at {:.1}s", scripts.len(), rep.started.elapsed().as_secs_f64());
     let jcases: Vec<Value> = scripts.iter().enumerate().map(|(i, s)| json!({"s": s, "mode": if i % 2 == 0 { "file" } else { "dash-c" }})).collect();
-    let cfgx = PoolCfg::new("script").timeout_ms(5_000);
+    let cfgx = PoolCfg::new("script").timeout_ms(3_000);
     let bytes: Vec<Vec<u8>> = jcases.iter().map(|c| c.to_string().into_bytes()).collect();
     let outs = pool::run(&cfgx, &bytes);
     eprintln!("  [C01] exec done at {:.1}s", rep.started.elapsed().as_secs_f64());
@@ -262,12 +267,13 @@ pub fn run(tier: Tier, _replay: Option<Value>) -> ! {
     rep.set("exec_skipped_bash_did_not_finish", bash_unbounded);
     // ---- the real binary on all three front-ends for every default-rendered template and nesting
     let tmpl: Vec<&CorpusCase> = corpus_all.iter().filter(|c| c.tags.iter().any(|t| t == "default" || t.starts_with("nest:"))).filter(|c| c.text.len() < 100_000).collect();
+    let tmpl: Vec<&CorpusCase> = if tier == Tier::Quick { tmpl.into_iter().filter(|c| c.tags.iter().any(|t| t == "default") || c.tags.iter().filter(|t| t.starts_with("nest:")).count() == 1).collect() } else { tmpl };
     let brush = procs::brush_path();
     let mut specs = vec![];
     for c in &tmpl {
-        specs.push(bash::spec_file(&brush, &c.text, 10_000));
-        specs.push(bash::spec_dash_c(&brush, &c.text, 10_000));
-        specs.push(bash::spec_stdin(&brush, &c.text, 10_000));
+        specs.push(bash::spec_file(&brush, &c.text, 4_000));
+        specs.push(bash::spec_dash_c(&brush, &c.text, 4_000));
+        specs.push(bash::spec_stdin(&brush, &c.text, 4_000));
     }
     let pr = procs::run_many(&specs, bash::procs_par());
     eprintln!("  [C01] real binary ({} runs) done at {:.1}s", specs.len(), rep.started.elapsed().as_secs_f64());
@@ -301,7 +307,7 @@ pub fn run(tier: Tier, _replay: Option<Value>) -> ! {
     if let Some(c) = corpus_all.last() {
         rep.sample(json!({"corpus": crate::engine::report::truncate(&c.text, 200), "tags": c.tags}));
     }
-    rep.assumptions.push("scripts that bash itself does not finish within 3 s are treated as unbounded work and skipped (counted)".into());
+    rep.assumptions.push("scripts that bash itself does not finish within 2 s are treated as unbounded work and skipped (counted)".into());
     rep.assumptions.push("unbounded run-time recursion and astronomically large expansions are resource exhaustion, reported under tags huge-number/timeout".into());
     rep.finish()
 }
